@@ -11,12 +11,14 @@ Inductive vop :=
 | VBase (o : op)
 | VItems (i : nat)            (* list(h.items())  : ((key, self.get(key)) for key in self.keys()) *)
 | VValues (i : nat)           (* list(h.values()) *)
-| VDup (i j : nat).           (* hs[j] = pickle.loads(pickle.dumps(hs[i])) *)
+| VDup (i j : nat)            (* hs[j] = pickle.loads(pickle.dumps(hs[i])) *)
+| VHeader (i : nat).          (* (h.h1, h.h2, h.b0) of a handle object that has been opened: what read_header took from the file *)
 
 Inductive vres :=
 | VR (r : res)
 | VRItems (l : list (bytes * bytes))
 | VRVals (l : list bytes)
+| VRHdr (h1 h2 b0 : bytes)
 | VRFail.                     (* the generator raised while it was consumed *)
 
 (* the generator consumed to the end: the first failing get aborts it *)
@@ -35,12 +37,23 @@ Definition items (f : bytes) (h : handle) : vres :=
 Definition values (f : bytes) (h : handle) : vres :=
   match gets f h (keys h) with Some l => VRVals (map snd l) | None => VRFail end.
 
+(* read_header: >16sHI10x, then h2len bytes of comment, then b0len bytes of descriptor block *)
+Definition read_header (f : bytes) : bytes * bytes * bytes :=
+  match skipn 16 f with
+  | a :: b :: c :: d :: e :: g :: _ =>
+      let h2len := a * 256 + b in
+      let b0len := rd32 c d e g in
+      (firstn 16 f, sub f 32 h2len, sub f (32 + h2len) b0len)
+  | _ => (firstn 16 f, [], [])
+  end.
+
 Definition vstep (w : world) (o : vop) : world * vres :=
   match o with
   | VBase o' => let '(w', r) := step w o' in (w', VR r)
   | VItems i => (w, items (fst w) (nth i (snd w) h0))
   | VValues i => (w, values (fst w) (nth i (snd w) h0))
   | VDup i j => ((fst w, upd (snd w) j (nth i (snd w) h0)), VR ROk)
+  | VHeader _ => (w, let '(a, b, c) := read_header (fst w) in VRHdr a b c)
   end.
 
 Fixpoint vrun (w : world) (ops : list vop) : list vres * world :=
@@ -69,6 +82,7 @@ Definition vres_eqb (a b : vres) : bool :=
   | VRItems x, VRItems y => perm_eqb pair_eqb x y
   | VRVals x, VRVals y => perm_eqb beq x y
   | VRFail, VRFail => true
+  | VRHdr a b c, VRHdr a' b' c' => beq a a' && beq b b' && beq c c'
   | VRFail, VR (RErr _ | ROther) | VR (RErr _ | ROther), VRFail => true
   | _, _ => false
   end.
